@@ -385,7 +385,9 @@ def analyse (p : ScProg) (lens : List Nat) : Option Report :=
 
 /-- what the last two blocks need: s0 … s11 are 21-bit digits, s12 ∈ {-1, 0}, s13 … s23 are zero -/
 def tailPre : List Itv :=
-  List.replicate 12 (0, 2097151) ++ [(-1, 0)] ++ List.replicate 11 (0, 0)
+  [(0, 2097151), (0, 2097151), (0, 2097151), (0, 2097151), (0, 2097151), (0, 2097151),
+   (0, 2097151), (0, 2097151), (0, 2097151), (0, 2097151), (0, 2097151), (0, 2097151),
+   (-1, 0), (0, 0), (0, 0), (0, 0), (0, 0), (0, 0), (0, 0), (0, 0), (0, 0), (0, 0), (0, 0), (0, 0)]
 
 /-- the final intervals with the lower bound of s11 raised to 0 (that bound is proved from the VALUE of the
 result, Proofs/Ed25519Ranges.lean; the interval analysis alone gives s11 ≥ -1) -/
